@@ -9,6 +9,12 @@
 mod model;
 mod oracle;
 mod real;
+mod world;
+mod meta;
+mod asyncd;
+mod parseq;
+mod sd;
+mod sd_gen;
 
 use std::{
     panic::{catch_unwind, AssertUnwindSafe},
@@ -125,6 +131,114 @@ fn guarded(prop: &str, case: &Case, seed: u64) -> Verdict {
     }
 }
 
+#[derive(Clone)]
+enum Hist {
+    W(world::WCase),
+    M(meta::MCase),
+}
+impl Hist {
+    fn run(&self) -> Option<(&'static str, String)> {
+        match self {
+            Hist::W(c) => world::run(c),
+            Hist::M(c) => meta::run(c),
+        }
+    }
+    fn to_text(&self) -> String {
+        match self {
+            Hist::W(c) => c.to_text(),
+            Hist::M(c) => c.to_text(),
+        }
+    }
+    fn len(&self) -> usize {
+        match self {
+            Hist::W(c) => c.ops.len(),
+            Hist::M(c) => c.ops.len(),
+        }
+    }
+    fn without(&self, k: usize) -> Hist {
+        match self {
+            Hist::W(c) => {
+                let mut c = c.clone();
+                c.ops.remove(k);
+                Hist::W(c)
+            }
+            Hist::M(c) => {
+                let mut c = c.clone();
+                c.ops.remove(k);
+                Hist::M(c)
+            }
+        }
+    }
+    fn from_text(text: &str) -> Result<Hist, String> {
+        if text.lines().any(|l| l.trim_start().starts_with("m ")) {
+            meta::MCase::from_text(text).map(Hist::M)
+        } else {
+            world::WCase::from_text(text).map(Hist::W)
+        }
+    }
+}
+
+fn world_search(prop: &str, cases: usize, seed: u64, end: Instant, out: &str) -> ! {
+    let mut explored = 0usize;
+    let mut distinct: std::collections::HashSet<String> = std::collections::HashSet::new();
+    let mut samples: Vec<String> = vec![];
+    for i in 0..cases {
+        if Instant::now() > end {
+            break;
+        }
+        let mut rng = Rng::new(seed.wrapping_mul(7_000_003).wrapping_add(i as u64));
+        let use_meta = prop == "C17" || (prop == "C08" && i % 3 == 2);
+        let case = if use_meta { Hist::M(meta::generate(&mut rng)) } else { Hist::W(world::generate(&mut rng)) };
+        let r = catch_unwind(AssertUnwindSafe(|| case.run()));
+        let fail = match r {
+            Ok(Some((p, w))) if p == prop => Some(w),
+            Ok(_) => None,
+            Err(p) => {
+                // a panic outside the guarded calls (e.g. while dropping the world): the typed-map property forbids it
+                if prop == "C09" || prop == "C17" { Some(format!("the crate panicked outside a call that may panic: {}", real::panic_msg(p))) } else { None }
+            }
+        };
+        if let Some(why) = fail {
+            // greedy shrinking: drop one top-level operation at a time while the same property keeps failing
+            let mut cur = case.clone();
+            let mut progress = true;
+            while progress {
+                progress = false;
+                for k in 0..cur.len() {
+                    let c = cur.without(k);
+                    if matches!(catch_unwind(AssertUnwindSafe(|| c.run())), Ok(Some((p, _))) if p == prop) {
+                        cur = c;
+                        progress = true;
+                        break;
+                    }
+                }
+            }
+            let why2 = match catch_unwind(AssertUnwindSafe(|| cur.run())) {
+                Ok(Some((_, w))) => w,
+                _ => why,
+            };
+            let text = format!(
+                "# property={}\n# found-by=bounded search of the real crate (World / MetaTable histories; seed {}, case {}, {} cases explored before it)\n# failure: {}\n{}",
+                prop, seed, i, explored, why2.replace('\n', " "), cur.to_text()
+            );
+            std::fs::write(out, text).expect("cannot write the replay file");
+            println!("FAIL {}", why2.replace('\n', " "));
+            println!("explored={} skipped=0", explored);
+            std::process::exit(1);
+        }
+        explored += 1;
+        let t = case.to_text();
+        if case.len() >= 2 && distinct.insert(t.clone()) && samples.len() < 2 && case.len() <= 6 {
+            samples.push(t);
+        }
+    }
+    println!("explored={} skipped=0 distinct_nontrivial={} first-skip-reason=", explored, distinct.len());
+    for s in samples {
+        println!("SAMPLE {}", s.trim_end().replace('\n', " | "));
+    }
+    std::process::exit(0);
+}
+
 fn main() {
     std::panic::set_hook(Box::new(|_| {}));
     let args: Vec<String> = std::env::args().collect();
@@ -137,6 +251,110 @@ fn main() {
             let time_ms: u64 = arg(&args, "--time-ms").and_then(|s| s.parse().ok()).unwrap_or(30000);
             let out = arg(&args, "--out").unwrap_or_else(|| "vx-replay.case".into());
             let end = Instant::now() + Duration::from_millis(time_ms);
+            if prop == "C15" {
+                let mut explored = 0usize;
+                let mut seen = std::collections::HashSet::new();
+                let mut samples = vec![];
+                for i in 0..cases {
+                    if Instant::now() > end {
+                        break;
+                    }
+                    let mut rng = Rng::new(seed.wrapping_mul(9_000_011).wrapping_add(i as u64));
+                    let c = asyncd::generate(&mut rng);
+                    match catch_unwind(AssertUnwindSafe(|| asyncd::run(&c))) {
+                        Ok(Some(why)) => {
+                            let text = format!("# property=C15\n# found-by=bounded search of the real crate (async dispatcher call sequences; seed {}, case {})\n# failure: {}\n{}", seed, i, why.replace('\n', " "), c.to_text());
+                            std::fs::write(&out, text).expect("cannot write the replay file");
+                            println!("FAIL {}", why.replace('\n', " "));
+                            println!("explored={} skipped=0", explored);
+                            std::process::exit(1);
+                        }
+                        Ok(None) => {
+                            explored += 1;
+                            let t = c.to_text();
+                            if seen.insert(t.clone()) && samples.len() < 2 && t.lines().count() <= 9 {
+                                samples.push(t.trim_end().replace('\n', " | "));
+                            }
+                        }
+                        Err(_) => {}
+                    }
+                }
+                println!("explored={} skipped=0 distinct_nontrivial={} first-skip-reason=", explored, seen.len());
+                for s in samples {
+                    println!("SAMPLE {}", s);
+                }
+                std::process::exit(0);
+            }
+            if prop == "C16" {
+                let mut explored = 0usize;
+                let mut seen = std::collections::HashSet::new();
+                let mut samples = vec![];
+                for i in 0..cases {
+                    if Instant::now() > end {
+                        break;
+                    }
+                    let mut rng = Rng::new(seed.wrapping_mul(3_000_017).wrapping_add(i as u64));
+                    let tree = parseq::generate(&mut rng);
+                    match catch_unwind(AssertUnwindSafe(|| parseq::run(&tree))) {
+                        Ok(Some(why)) => {
+                            let text = format!("# property=C16\n# found-by=bounded search of the real crate (par/seq trees; seed {}, case {})\n# failure: {}\n{}", seed, i, why.replace('\n', " "), tree.to_text());
+                            std::fs::write(&out, text).expect("cannot write the replay file");
+                            println!("FAIL {}", why.replace('\n', " "));
+                            println!("explored={} skipped=0", explored);
+                            std::process::exit(1);
+                        }
+                        Ok(None) => {
+                            explored += 1;
+                            let t = tree.to_text();
+                            if seen.insert(t.clone()) && samples.len() < 2 && t.lines().count() <= 8 {
+                                samples.push(t.trim_end().replace('\n', " | "));
+                            }
+                        }
+                        Err(_) => {}
+                    }
+                }
+                println!("explored={} skipped=0 distinct_nontrivial={} first-skip-reason=", explored, seen.len());
+                for s in samples {
+                    println!("SAMPLE {}", s);
+                }
+                std::process::exit(0);
+            }
+            if prop == "C06" {
+                let mut explored = 0usize;
+                let mut seen = std::collections::HashSet::new();
+                let mut samples = vec![];
+                for i in 0..cases {
+                    if Instant::now() > end {
+                        break;
+                    }
+                    let mut rng = Rng::new(seed.wrapping_mul(5_000_011).wrapping_add(i as u64));
+                    let r = catch_unwind(AssertUnwindSafe(|| sd::explore(i, &mut rng)));
+                    match r {
+                        Ok((name, mask, Some(why))) => {
+                            let text = format!("# property=C06\n# found-by=bounded search of the real crate (system-data family; seed {}, case {})\n# failure: {}\nsd name={} mask={}\n", seed, i, why.replace('\n', " "), name, mask);
+                            std::fs::write(&out, text).expect("cannot write the replay file");
+                            println!("FAIL {}", why.replace('\n', " "));
+                            println!("explored={} skipped=0", explored);
+                            std::process::exit(1);
+                        }
+                        Ok((name, mask, None)) => {
+                            explored += 1;
+                            if seen.insert((name.clone(), mask)) && samples.len() < 2 {
+                                samples.push(format!("sd name={} mask={:#x}", name, mask));
+                            }
+                        }
+                        Err(_) => {}
+                    }
+                }
+                println!("explored={} skipped=0 distinct_nontrivial={} first-skip-reason=", explored, seen.len());
+                for s in samples {
+                    println!("SAMPLE {}", s);
+                }
+                std::process::exit(0);
+            }
+            if prop == "C08" || prop == "C09" || prop == "C17" {
+                world_search(&prop, cases, seed, end, &out);
+            }
             let (mut explored, mut skipped) = (0usize, 0usize);
             let mut distinct: std::collections::HashSet<u64> = std::collections::HashSet::new();
             let mut samples: Vec<String> = vec![];
@@ -215,6 +433,72 @@ fn main() {
         "replay" => {
             let file = arg(&args, "--file").expect("--file");
             let text = std::fs::read_to_string(&file).expect("cannot read the replay file");
+            if prop == "C15" {
+                match asyncd::ACase::from_text(&text) {
+                    Ok(c) => match asyncd::run(&c) {
+                        Some(w) => {
+                            println!("FAIL {}", w);
+                            std::process::exit(1);
+                        }
+                        None => {
+                            println!("HOLDS");
+                            std::process::exit(0);
+                        }
+                    },
+                    Err(e) => {
+                        println!("ERROR cannot parse {}: {}", file, e);
+                        std::process::exit(2);
+                    }
+                }
+            }
+            if prop == "C16" {
+                match parseq::Tree::from_text(&text) {
+                    Ok(t) => match parseq::run(&t) {
+                        Some(w) => {
+                            println!("FAIL {}", w);
+                            std::process::exit(1);
+                        }
+                        None => {
+                            println!("HOLDS");
+                            std::process::exit(0);
+                        }
+                    },
+                    Err(e) => {
+                        println!("ERROR cannot parse {}: {}", file, e);
+                        std::process::exit(2);
+                    }
+                }
+            }
+            if prop == "C06" {
+                for l in text.lines().filter(|l| l.starts_with("sd ")) {
+                    let name = l.split_whitespace().find_map(|t| t.strip_prefix("name=")).unwrap_or("");
+                    let mask: u32 = l.split_whitespace().find_map(|t| t.strip_prefix("mask=")).and_then(|m| m.parse().ok()).unwrap_or(0);
+                    if let Some(w) = sd::replay(name, mask) {
+                        println!("FAIL {}", w);
+                        std::process::exit(1);
+                    }
+                }
+                println!("HOLDS");
+                std::process::exit(0);
+            }
+            if prop == "C08" || prop == "C09" || prop == "C17" {
+                match Hist::from_text(&text) {
+                    Ok(c) => match c.run() {
+                        Some((p, w)) if p == prop => {
+                            println!("FAIL {}", w);
+                            std::process::exit(1);
+                        }
+                        _ => {
+                            println!("HOLDS");
+                            std::process::exit(0);
+                        }
+                    },
+                    Err(e) => {
+                        println!("ERROR cannot parse {}: {}", file, e);
+                        std::process::exit(2);
+                    }
+                }
+            }
             let case = match Case::from_text(&text) {
                 Ok(c) => c,
                 Err(e) => {
